@@ -105,12 +105,25 @@ class HistoryCheck(Check):
         lab_holder: list = [None]
 
         def lab():
+            if session.get('lab') is not None:
+                return session['lab']        # the same Lab object that ran the tasks (a per-Lab memo must stay coherent)
             if lab_holder[0] is None:
                 lab_holder[0] = labtech.Lab(storage=storage, notebook=False, runner_backend='serial', continue_on_failure=False)
             return lab_holder[0]
 
         originals = Built({**base, 'requested': []})
+        universe = Built({**base, 'requested': []})     # task objects that live for the whole history
+        session: dict = {}                               # the Lab object (and its storage wrapper) currently in use
+        lab_gen = [0]
         stored_any = False
+
+        def end_session():
+            st = session.get('sim_storage')
+            if st is not None:
+                st.release()
+            session.clear()
+            lab_holder[0] = None
+            lab_gen[0] += 1
         try:
             n_ops = 2 + ops.draw(self.max_ops - 1)
             for step in range(n_ops):
@@ -123,34 +136,47 @@ class HistoryCheck(Check):
                     backend = ops.pick(['serial', 'sim'])
                     history.append(['run', roots, bust, backend])
                     probes['op-bust' if bust else 'op-run'] = 1
+                    have = set() if provider == 'none' else set(model)
+                    ex_set, ld_set = ref.plan(have, bust, roots=sorted(set(roots)))
+                    fail = {}
+                    if ops.chance(1, 4):
+                        fail = {str(n): 'raise' for n in ex_set if ops.chance(1, 3)}
+                        if fail:
+                            probes['op-run-with-failures'] = 1
+                    failed = ref.failing(ex_set, {int(k) for k in fail})
+                    gen = 100 + lab_gen[0]          # the context belongs to the Lab object
                     sc = dict(base)
                     sc.update({'requested': [[i, 1 if ops.chance(1, 4) else 0] for i in roots], 'backend': backend,
-                               'bust_cache': bust, 'gen_main': 100 + step, 'skip_warm': True, 'observe_after': False,
-                               'observe_before': False, 'cached': sorted(model)})
+                               'bust_cache': bust, 'gen_main': gen, 'skip_warm': True, 'observe_after': False,
+                               'observe_before': False, 'cached': sorted(model), 'fail': fail})
+                    history[-1].append(sorted(int(k) for k in fail))
                     restore_logger(saved)
                     try:
                         if provider == 'none':
-                            out = execute(sc, ch, None)
+                            out = execute(sc, ch, None, built=universe, session=session)
                         elif provider == 'local':
-                            out = execute(sc, ch, d)
+                            out = execute(sc, ch, d, built=universe, session=session)
                         else:
-                            out = execute(sc, ch, d, storage_obj=storage)
+                            out = execute(sc, ch, d, storage_obj=storage, built=universe, session=session)
                     finally:
                         saved = quiet_logger(rec)
                     events_all += out.events
                     facts = O.Facts(sc, out)
-                    have = set() if provider == 'none' else set(model)
-                    ex_set, ld_set = ref.plan(have, bust, roots=sorted(set(roots)))
-                    ctx = {'alpha': 'A', 'beta': 2, 'gen': 100 + step}
-                    exp = ref.evaluate(ctx, loaded={n: model[n][0] for n in ld_set}, roots=ref.closure(roots))
+                    ctx = {'alpha': 'A', 'beta': 2, 'gen': gen}
+                    exp = ref.evaluate(ctx, loaded={n: model[n][0] for n in ld_set},
+                                       roots=[r for r in ref.closure(roots) if r not in failed])
                     if out.kind != 'return':
                         what = out.exc['type'] if out.exc else out.abort
                         vs.append(O.V(self.id, 'run-failed', f'step {step} run{roots} bust={bust}: run_tasks did not return: {what} '
                                       f'{(out.exc or {}).get("msg", "")[:200]}', exc=what, provider=provider))
                         break
                     got = {n: v for n, v in out.returned}
+                    want_keys = [n for n in dict.fromkeys(roots) if n not in failed]
+                    if list(got) != want_keys:
+                        vs.append(O.V(self.id, 'run-returned-set', f'step {step} run{roots} bust={bust} failing={sorted(failed)}: returned '
+                                      f'{list(got)}, expected {want_keys}', provider=provider, bust=bust, with_failures=bool(failed)))
                     for n in got:
-                        if got[n] != exp[n]:
+                        if n in exp and got[n] != exp[n]:
                             vs.append(O.V(self.id, 'run-value', f'step {step} run{roots} bust={bust}: node {n} returned {got[n]!r}, '
                                           f'the reference map/evaluator says {exp[n]!r}', provider=provider, bust=bust))
                             break
@@ -159,10 +185,27 @@ class HistoryCheck(Check):
                                       f'reference map says {ex_set} must run (cached: {sorted(have)})', provider=provider, bust=bust,
                                       extra=bool(set(facts.executed) - set(ex_set)), missing=bool(set(ex_set) - set(facts.executed))))
                     if provider != 'none':
+                        # result_meta as set on the instances that took part in this call
+                        meta_of = {}
+                        for n, lst in out.metas.items():
+                            for serial, m in lst:
+                                meta_of[serial] = m
+                        run_meta: dict[int, Any] = {}
+                        stack = list(out.requested_serials)
+                        seen = set()
+                        while stack:
+                            sr = stack.pop()
+                            if sr in seen:
+                                continue
+                            seen.add(sr)
+                            nn = out.instance_node[sr]
+                            if meta_of.get(sr) is not None:
+                                run_meta.setdefault(nn, meta_of[sr])
+                            if nn in ex_set:
+                                stack += out.instance_children.get(sr, [])
                         for n in ex_set:
-                            if ref.cacheable(n):
-                                ms = [m for _s, m in out.metas.get(n, []) if m is not None]
-                                model[n] = (exp[n], ms[0] if ms else None)
+                            if ref.cacheable(n) and n not in failed:
+                                model[n] = (exp[n], run_meta.get(n))
                                 stored_any = True
                 elif kind == 2:
                     targets = [i for i in all_ids if ops.chance(1, 3)] or [ops.pick(all_ids)]
@@ -179,7 +222,7 @@ class HistoryCheck(Check):
                 elif kind == 5:
                     history.append(['new-lab'])
                     probes['op-new-lab'] = 1
-                    lab_holder[0] = None
+                    end_session()
                 elif kind == 4:
                     history.append(['probe-run'])
                     probes['op-probe'] = 1
@@ -191,6 +234,7 @@ class HistoryCheck(Check):
                     vs += self.observe(ref, model, lab(), originals, step, provider, ops, probes, history)
         finally:
             restore_logger(saved)
+            end_session()
             shutil.rmtree(d, ignore_errors=True)
             if provider == 'fsspec-mem' and storage is not None:
                 try:
